@@ -9,6 +9,9 @@ import (
 	"fmt"
 	"io"
 	"math/rand"
+	"os"
+	"sync/atomic"
+	"time"
 
 	abci "github.com/tendermint/tendermint/abci/types"
 	"github.com/tendermint/tendermint/crypto/merkle"
@@ -305,7 +308,9 @@ func runProofs(c *verdict.Ctx) {
 							c.Violation("merkle-verify-panics", fmt.Sprintf("Proof.Verify panicked: %v", rec), proofWitness(leaves, m, "panic", false))
 						}
 					}()
+					begin(proofWitness(leaves, m, "in progress", false))
 					err = p.Verify(root, m.item)
+					end()
 				}()
 				want := ref.ProofOK(leaves, m.item, m.index, m.total, m.leaf, m.aunts)
 				got := err == nil
@@ -532,7 +537,9 @@ func runParts(c *verdict.Ctx) {
 						c.Violation("partset-addpart-panics", fmt.Sprintf("AddPart panicked: %v", rec), partWitness(t, L, s, pm, false, err))
 					}
 				}()
+				begin(partWitness(t, L, s, pm, false, nil))
 				ok, err = ps.AddPart(p)
+				end()
 			}()
 			legit := int(p.Index) < total && bytes.Equal(p.Bytes, chunk(int(p.Index)))
 			c.Count(fmt.Sprintf("parts.added=%v", ok), 1)
@@ -676,7 +683,35 @@ func mutatePart(r *rand.Rand, full, other *types.PartSet, i, total int) partMut 
 	}
 }
 
+// watchdog: the functions under test take microseconds; one that has not returned after 30 s of wall
+// clock is reported (the process then exits, the spinning call cannot be cancelled).
+var (
+	callStart int64
+	callDesc  atomic.Value
+)
+
+func begin(desc map[string]interface{}) {
+	callDesc.Store(desc)
+	atomic.StoreInt64(&callStart, time.Now().UnixNano())
+}
+func end() { atomic.StoreInt64(&callStart, 0) }
+
+func startWatchdog(c *verdict.Ctx) {
+	go func() {
+		for {
+			time.Sleep(time.Second)
+			st := atomic.LoadInt64(&callStart)
+			if st != 0 && time.Now().UnixNano()-st > int64(30*time.Second) {
+				d, _ := callDesc.Load().(map[string]interface{})
+				c.Violation("call-does-not-return", "a Verify / AddPart call on a generated input has not returned after 30 s", d)
+				os.Exit(c.Finish(0))
+			}
+		}
+	}()
+}
+
 func Run(c *verdict.Ctx) int {
+	startWatchdog(c)
 	c.Level = "exploration"
 	c.Rule = "cases = (tree or part set, position, mutation) drawn from a seeded PRNG; a case is distinct by (case index, position, mutation name, index, total) and non-trivial because every one is a call of the real Verify/Validate/AddPart whose verdict is compared with the reference predicate"
 	c.Assume("SHA-256 and the RFC 6962 tree shape as re-implemented in ref/merkle.go", "protobuf encoding of blocks is shared with the implementation")
